@@ -403,3 +403,21 @@ class Sched:
             if in_handler:
                 return
             raise HarnessAbort()
+
+
+class FixedSchedule:
+    """For sequential engines: nothing is drawn during execution."""
+
+    replay = True
+
+    def __init__(self, cost=100):
+        self._cost = cost
+
+    def pick(self, candidates, live):
+        return min(live)
+
+    def cost(self):
+        return self._cost
+
+    def record(self):
+        return None
